@@ -107,8 +107,16 @@ func FilterPath(unfiltered string) string {
 // Find a handler on a handler map given a path string
 // Most-specific (longest) pattern wins
 func (r *Router) Match(path string, routeParams *RouteParams) (matchedRoute *Route, matchedPattern string) {
+	matchedRoute, matchedPattern, _ = r.match(path, routeParams)
+	return
+}
+
+// match is Match; it also returns the default handler of the very moment the routes were searched, so that a
+// dispatch never combines the routes of one moment with the default handler of another.
+func (r *Router) match(path string, routeParams *RouteParams) (matchedRoute *Route, matchedPattern string, defaultHandler Handler) {
 	path = FilterPath(path)
 	r.m.RLock()
+	defaultHandler = r.defaultHandler
 	n := 0
 	for pattern, route := range r.z {
 		if !pathMatch(route, path) {
@@ -222,7 +230,7 @@ func (r *Router) ServeCOAP(w ResponseWriter, req *Message) {
 	}
 	var h Handler
 	verifhook.Yield("mux.ServeCOAP.betweenLocks", 0)
-	matchedMuxEntry, _ := r.Match(path, req.RouteParams)
+	matchedMuxEntry, _, defaultHandler := r.match(path, req.RouteParams)
 	if matchedMuxEntry == nil {
 		h = defaultHandler
 	} else {
